@@ -83,8 +83,10 @@ func voracleTokens(s string, ts tokenizer.Tokens) string {
 	}
 	for i := 0; i < len(s); {
 		r, sz := utf8.DecodeRuneInString(s[i:])
-		if !covered[i] && !unicode.IsSpace(r) {
-			return fmt.Sprintf("non-space character %q at offset %d is not covered by any token", r, i)
+		for k := i; k < i+sz; k++ { // every byte of the character, not only its first
+			if !covered[k] && !unicode.IsSpace(r) {
+				return fmt.Sprintf("non-space character %q at offset %d is not covered by any token (byte %d)", r, i, k)
+			}
 		}
 		i += sz
 	}
